@@ -26,7 +26,7 @@ FIELDS = [
     b"GET", b"HEAD", b"POST", b"HTTP/1.0", b"HTTP/", b"gemini://h/p", b"gemini:/", b"/sel", b"/wap/x", b"h.example",
     b"0", b"12", b"-1", b"x", b"+", b"!", b"$", b"+text/plain", b"", b"\xc3\xa9", b"\xff",
     # near misses of every documented shape
-    b"HTTP", b"http/1.0", b"XHTTP/1.0", b"get", b"GETX", b"Gemini://h/", b"xgemini://h/", b"!x", b"$x", b"x+", b"1e3", b"\xd9\xa1", b"/wa",
+    b"HTTP", b"http/1.0", b"XHTTP/1.0", b"get", b"GETX", b"Gemini://h/", b"xgemini://h/", b"!x", b"$x", b"x+", b"1e3", b"\xd9\xa1", b"/wa", b"/wap", b"/wapx", b"/wap?q", b"/wap/",
 ]
 SMALL_FIELDS = [b"GET", b"HTTP/1.0", b"/sel", b"/wap/x", b"0", b"+", b"!", b"", b"h.example", b"gemini://h/p"]
 SEPS = [b" ", b"  ", b"\t", b"\t\t"]
